@@ -135,9 +135,9 @@ func c15Build(texts, inners []string, cons []*c15Construct, trim, lstrip bool) (
 	var marked strings.Builder
 	// pieces of literal text with what stands left and right of them
 	type piece struct {
-		txt                       string
-		afterBlock, beforeBlock   bool // directly after a %} / directly before a {%
-		dashLeft, dashRight       bool // the neighbouring delimiter on that side carries a dash
+		txt                     string
+		afterBlock, beforeBlock bool // directly after a %} / directly before a {%
+		dashLeft, dashRight     bool // the neighbouring delimiter on that side carries a dash
 	}
 	var out strings.Builder
 	strip := func(p piece) string {
